@@ -103,8 +103,9 @@ def r1_r2_cross_val(ctx):
         ctx.check("R1", "%s|clone-per-split|%s" % (qn, tag), True if okc and inside else (False if est == ("param", "estimator") or (okc and not inside) else None),
                   "each split gets its own clone(estimator), created inside the loop",
                   bad="the caller's estimator is %s" % ("passed to fit_score without clone (it gets fitted, and splits share state)" if est == ("param", "estimator") else "cloned once outside the loop: all splits share one object"), fn=qn)
-        other = [e for e in p.events if e.kind == "call" and callee(e.data[0]) != "sklearn.base.clone" and any(x == ("param", "estimator") for arg in e.data[0][2] for x in [arg])
-                 and e.data[0] is not d] + [e for e in p.events if e.kind == "call" and e.data[0][1][0] == "attr" and e.data[0][1][1] == ("param", "estimator")]
+        other = [e for e in p.events if e.kind == "call" and e.data[0][1][0] == "attr" and e.data[0][1][1] == ("param", "estimator")
+                 and e.data[0][1][2] in ("fit", "set_params", "filter", "fit_transform", "partial_fit", "__setattr__")] + \
+                [e for e in p.events if e.kind == "setattr" and e.data[0] == ("param", "estimator")]
         ctx.check("R1", "%s|estimator-untouched|%s" % (qn, tag), False if other else True, "the estimator parameter is only ever cloned",
                   bad="the caller's estimator is used directly: %s" % (callee(other[0].data[0]) if other else ""), fn=qn)
         # rows
